@@ -747,7 +747,8 @@ impl DB {
                 Ok(num_files.to_string())
             }
             DatabaseDescriptor::Stats => {
-                let db_stats = self.summarize_compaction_stats();
+                // The lock is already held and is not reentrant so pass the guard along
+                let db_stats = DB::summarize_compaction_stats(&db_fields_guard);
                 Ok(db_stats)
             }
             DatabaseDescriptor::SSTables => {
@@ -2233,10 +2234,9 @@ impl DB {
     }
 
     /// Return a string summarizing the compaction statistics for each level.
-    fn summarize_compaction_stats(&self) -> String {
+    fn summarize_compaction_stats(db_fields_guard: &MutexGuard<GuardedDbFields>) -> String {
         const MEGABYTE_SIZE_BYTES: f64 = 1.0 * 1024.0 * 1024.0;
 
-        let db_fields_guard = self.guarded_fields.lock();
         let mut summary = "Compactions".to_owned();
         writeln!(
             summary,
